@@ -210,6 +210,15 @@ func (i pyInt) IsTruthy() bool {
 	return i != 0
 }
 
+// floorMod is Python's %: a non-zero result has the sign of the divisor (Go's % takes the sign of the dividend).
+func floorMod(i, o pyInt) pyInt {
+	m := i % o
+	if m != 0 && (m < 0) != (o < 0) {
+		m += o
+	}
+	return m
+}
+
 func (i pyInt) Operator(operator Operator, operand pyObject) pyObject {
 	switch o := operand.(type) {
 	case pyInt:
@@ -233,7 +242,7 @@ func (i pyInt) Operator(operator Operator, operand pyObject) pyObject {
 		case GreaterThanOrEqual:
 			return newPyBool(i >= o)
 		case Modulo:
-			return i % o
+			return floorMod(i, o)
 		case In:
 			panic("bad operator: 'in' int")
 		}
